@@ -15,6 +15,7 @@ import EinoV.Model.C12
 import EinoV.Proofs.C12
 import EinoV.Model.C12Reg
 import EinoV.Proofs.C12Reg
+import EinoV.Proofs.TransC12
 import EinoV.Gen.FactsC12
 import EinoV.Expected.C12
 
@@ -542,5 +543,58 @@ theorem stale_key_without_type_guard :
     let c := ctxR.after RFnoTypeGuard [⟨"a", tCelsius⟩, ⟨"b", tCelsius⟩]
     c.ok = false ∧ tyOfKey c "a" = some tCelsius ∧ keyOf c tCelsius = some "b" := by
   decide
+
+/-! ### The translated `GenericRegister` (internal/serialization → Gen/TransC12.lean; gotrans phase 7)
+
+  `GenericRegister[T](key)` is re-translated from /repo on every run of this property.  The type parameter `T`
+  is a parameter holding its `reflect.Type`; `reflect.Type` is the prelude's inductive `GoRType` (a base type or
+  a pointer to a type), so the pointer-stripping loop is real iteration (translated with fuel: the pointer depth
+  of `T` is enough); the package-level maps `m` / `rm` are explicit state (`rm` is keyed by the type: `GoMapK`).
+  `RegRel` relates the two Go maps to the model's log of accepted pairs (newest first, first match): `m[key]` is
+  the type of the newest entry under the key, `rm[t]` the key of the newest entry for the type.  The theorems say
+  that the translated function computes `regStep` — the state machine every registry theorem above is about —
+  for the regenerated guard facts, with the errors by class (the three format strings), and never panics. -/
+section TranslatedRegister
+open EinoV.GoSem EinoV.TransC12 EinoV.Gen.TransC12
+variable {V : Type} [Inhabited V]
+
+theorem translated_source_is_current : FactsC12.registerTranslated = true := by decide
+
+theorem translated_GenericRegister_refines (ext : Ext V) (code : GoTy → Nat) (hc : ∀ a b, code a = code b → a = b)
+    (m : GoMap GoRType) (rm : GoMapK GoRType String) (r : Reg) (h : RegRel code m rm r)
+    (op : RegOp) (fuel : Nat) (hf : op.ty.depth ≤ fuel) :
+    ∃ m' rm', GenericRegister ext fuel op.key (TransC12.enc code op.ty) m rm
+        = .ret (m', rm', errOf (regStep srcRegFacts r op).1) ∧
+      RegRel code m' rm' (regStep srcRegFacts r op).2 ∧
+      ((regStep srcRegFacts r op).1 ≠ .accepted → m' = m ∧ rm' = rm) := by
+  rw [srcRegFacts_all]
+  exact GenericRegister_refines ext code hc m rm r h op fuel hf
+
+theorem translated_GenericRegister_total (ext : Ext V) (code : GoTy → Nat) (hc : ∀ a b, code a = code b → a = b)
+    (m : GoMap GoRType) (rm : GoMapK GoRType String) (r : Reg) (h : RegRel code m rm r)
+    (op : RegOp) (fuel : Nat) (hf : op.ty.depth ≤ fuel) :
+    ∃ res, GenericRegister ext fuel op.key (TransC12.enc code op.ty) m rm = .ret res :=
+  GenericRegister_total ext code hc m rm r h op fuel hf
+
+/-- the initial state: both maps are declared empty (checked by the extractor), the empty log -/
+theorem translated_register_initial (code : GoTy → Nat) : RegRel code [] [] [] := regRel_nil code
+
+/-! non-vacuity: registering `**T7` under "k" stores the stripped type in both maps; the same key again, the
+    same type under another key, and the empty key are refused with the three errors; with too little fuel the
+    loop stops early (the fuel hypothesis matters) -/
+def exExtR : Ext Nat := { zeroValue := 0, emptyStream := 0, mergeValues := fun _ => (0, none) }
+
+example : (match GenericRegister exExtR 2 "k" (.ptr (.ptr (.base 7))) [] [] with
+    | .ret r => r | _ => ([], [], none)) = ([("k", .base 7)], [(.base 7, "k")], none) := by decide
+example : (match GenericRegister exExtR 2 "k" (.base 8) [("k", .base 7)] [(.base 7, "k")] with
+    | .ret r => r.2.2 | _ => none) = errOf .keyTaken := by decide
+example : (match GenericRegister exExtR 2 "j" (.ptr (.base 7)) [("k", .base 7)] [(.base 7, "k")] with
+    | .ret r => r.2.2 | _ => none) = errOf .typeTaken := by decide
+example : (match GenericRegister exExtR 2 "" (.base 9) [] [] with
+    | .ret r => r.2.2 | _ => none) = errOf .emptyKey := by decide
+example : (match GenericRegister exExtR 1 "k" (.ptr (.ptr (.base 7))) [] [] with
+    | .ret r => r.1 | _ => []) = [("k", .ptr (.base 7))] := by decide
+
+end TranslatedRegister
 
 end EinoV.C12
